@@ -62,11 +62,17 @@ type probeJSON struct {
 	Sig     []byte `json:"sig"`
 }
 
-func newProbeData(id, key int, y *yielder) *probeData {
+func newProbeData(id, key int, y *yielder) *probeData { return newProbeDataSig(id, id, key, y) }
+
+// The ...Sig constructors build content `id` carrying the signature bytes of content `sigID`: with
+// sigID != id a DIFFERENT datum under the same signature (a field the signature does not cover
+// differs, or a signature is reused) - still conflicting data for the key (seeded change C17-r8:
+// equality judged on the signature alone).
+func newProbeDataSig(id, sigID, key int, y *yielder) *probeData {
 	p := &probeData{ID: id, Key: key, Payload: make([]byte, 24), Sig: make([]byte, 96), y: y}
 	binary.BigEndian.PutUint64(p.Payload, uint64(id)*0x9e3779b97f4a7c15)
 	binary.BigEndian.PutUint64(p.Payload[8:], uint64(key))
-	binary.BigEndian.PutUint64(p.Sig, uint64(id))
+	binary.BigEndian.PutUint64(p.Sig, uint64(sigID))
 
 	return p
 }
@@ -124,20 +130,21 @@ func sigOf(id int) eth2p0.BLSSignature {
 	return s
 }
 
-func newRandao(id int) core.SignedData {
-	return core.NewSignedRandao(eth2p0.Epoch(1000+id), sigOf(id))
+func newRandao(id, sigID int) core.SignedData {
+	return core.NewSignedRandao(eth2p0.Epoch(1000+id), sigOf(sigID))
 }
 
-func newSelection(id int, slot uint64, sub core.SubcommitteeIndex) core.SignedData {
+func newSelection(id, sigID int, slot uint64, sub core.SubcommitteeIndex) core.SignedData {
 	return core.NewSyncCommitteeSelection(&eth2v1.SyncCommitteeSelection{
-		ValidatorIndex:    eth2p0.ValidatorIndex(7),
+		ValidatorIndex:    eth2p0.ValidatorIndex(7 + 1000*(id-sigID)),
 		Slot:              eth2p0.Slot(slot),
 		SubcommitteeIndex: uint64(sub),
-		SelectionProof:    sigOf(id),
+		SelectionProof:    sigOf(sigID),
 	})
 }
 
-func newContribution(id int, slot uint64, sub core.SubcommitteeIndex) core.SignedData {
+func newContribution(id, sigID int, slot uint64, sub core.SubcommitteeIndex) core.SignedData {
+	sigOf := func(int) eth2p0.BLSSignature { return sigOf(sigID) }
 	var root eth2p0.Root
 	binary.BigEndian.PutUint64(root[:], uint64(id))
 
@@ -175,10 +182,10 @@ func fingerprint(sd core.SignedData) (string, error) {
 	return string(b), err
 }
 
-func newExit(id int) core.SignedData {
+func newExit(id, sigID int) core.SignedData {
 	return core.NewSignedVoluntaryExit(&eth2p0.SignedVoluntaryExit{
 		Message:   &eth2p0.VoluntaryExit{Epoch: eth2p0.Epoch(1000 + id), ValidatorIndex: eth2p0.ValidatorIndex(id)},
-		Signature: sigOf(id),
+		Signature: sigOf(sigID),
 	})
 }
 
